@@ -25,7 +25,7 @@ static double untk(const std::string& s) { return s == "nan" ? Math::NaN() : unh
 
 // A default-constructed line object built over memory painted with `fill`: the default constructors set `_caps` only, so the
 // other members are whatever the memory held.  fill = 0 / 1 make the member `bool _exact` of GeodesicLine a valid false / true
-// (both branches of GenPosition, deterministically); fill = 7 is the garbage a stack usually holds (see finding G12-1).
+// (both branches of GenPosition, deterministically); fill = 7 is the garbage a stack usually holds (see finding F66).
 template<class Line> struct DefLine {
   alignas(Line) unsigned char buf[sizeof(Line)];
   Line* p;
@@ -433,7 +433,7 @@ void gv::generate(const std::string& tier, uint64_t seed) {
     run("invmask", {svi[s], std::to_string(om)}); run("dirmask", {svi[s], std::to_string(om), "0"}); if (s < 3) run("dirmask", {svi[s], std::to_string(om), "1"});
     if (s >= 3) for (double s12 : {2e6, 1.2e7, -1.3e7, 3e7}) run("rlinemask", {svi[s], std::to_string(om), hx(s12)});     // 1.2e7 m at azimuth 30 from latitude 10 passes the pole
     if (s < 3 && (th || osel % 4 == 0)) for (int arc = 0; arc < 2; ++arc) for (int fill = 0; fill < (s == 2 ? 1 : 2); ++fill) run("uninitmask", {svi[s], std::to_string(om), arc ? "1" : "0", std::to_string(fill)});
-    if (s < 2 && osel == 511) run("uninitmask", {svi[s], std::to_string(om), "1", "7"});      // the state a stack usually leaves (finding G12-1)
+    if (s < 2 && osel == 511) run("uninitmask", {svi[s], std::to_string(om), "1", "7"});      // the state a stack usually leaves (finding F66)
   }
   stratum("written-solvers");
   // Capabilities(): every capability set x test sets
